@@ -230,7 +230,7 @@ func VH_C14_hooks() {
 // against a client command on the same, already due, object - every interleaving at the lock operations.
 // Deciding that an object is due and deleting it is one indivisible step: the outcome is that of one of the
 // two serial orders, and the log records the two effects in the order they were applied.
-//verif:cfg b_threads=expirer_pass+1_client_command b_client=SET_without_EX|PERSIST|EXPIRE_later|SET_EX_later|DEL|GET b_interleavings=all_at_lock_operations ignorego=1 ignoregothreads=1
+//verif:cfg use=c08 b_threads=expirer_pass+1_client_command b_client=SET_without_EX|PERSIST|EXPIRE_later|SET_EX_later|DEL|GET b_interleavings=all_at_lock_operations ignorego=1 ignoregothreads=1
 func VH_C07_expirer_atomic() {
 	s := vhServer()
 	s.mu = &vhBLock{}
